@@ -300,6 +300,7 @@ class World:
             self._prepare_real_openql(work_dir)
         else:
             self._install_fake_openql()
+        self.tables = libmod.calibrate(self.lib)
         self._install_taps()
         self._install_rebuild_gate()
         self._collect_process_state()
@@ -398,7 +399,9 @@ class World:
         w = self
         dc = self.lib.display_circuit
         tc = self.lib.TransformConstructor
-        self.taps = {"descriptions": [], "pivots": []}
+        self.taps = {"descriptions": [], "pivots": [], "components": []}
+        if not hasattr(dc, "plot_circuit_description") or "identifier_to_pivot" not in vars(tc):
+            return   # refactored away: the drawing is then only checked for its side effects
         real_pcd = dc.plot_circuit_description
 
         def tapped_pcd(description, **kwargs):
